@@ -49,6 +49,7 @@ def St.bad (st : St) : St := { st with h := st.h.bad }
 
 /-- store a freshly obtained reference (or nothing) in an empty slot -/
 def St.fresh (st : St) (s : Nat) (r : Option Ref × H) : St × Res :=
+  if st.slots.length ≤ s then ({ st with h := r.2.bad }, .null) else
   match st.slot s, r with
   | some _, (_, h) => ({ st with h := h.bad }, .null)
   | none, (some x, h) => ({ st with h := h }.setSlot s (some x), .item x)
@@ -113,6 +114,7 @@ def step (ω : Oracle) (L : Nat) (st : St) : Op → St × Res
       match tagSet st.h rt rx with
       | (none, h) => ({ st with h := h }, .unit)
       | (some old, h) =>
+        if st.slots.length ≤ s then ({ st with h := h.bad }, .unit) else
         match st.slot s with
         | none => ({ st with h := h }.setSlot s (some old), .unit)
         | some _ => ({ st with h := h.bad }, .unit)
@@ -126,19 +128,17 @@ def step (ω : Oracle) (L : Nat) (st : St) : Op → St × Res
     | some rx => st.fresh s (st.h.copy ω rx)
     | none => (st.bad, .null)
   | .incref s x =>
-    match st.slot s, st.slot x with
-    | none, some rx => ({ st with h := st.h.incref rx }.setSlot s (some rx), .item rx)
-    | _, _ => (st.bad, .null)
+    match st.slot x with
+    | some rx => st.fresh s (some rx, st.h.incref rx)
+    | none => (st.bad, .null)
   | .decref s =>
     match st.slot s with
     | some r => ({ st with h := st.h.decref r }.setSlot s none, .unit)
     | none => (st.bad, .unit)
   | .load s bytes =>
-    match st.slot s with
-    | some _ => (st.bad, .null)
-    | none =>
-      let (r, res, h) := st.h.load ω L bytes.toArray
-      ({ st with h := h }.setSlot s r, .loaded r res)
+    let (r, res, h) := st.h.load ω L bytes.toArray
+    let (st, _) := st.fresh s (r, h)
+    (st, .loaded r res)
 
 def run (ω : Oracle) (L : Nat) (st : St) (ops : List Op) : St := ops.foldl (fun st op => (step ω L st op).1) st
 
